@@ -209,13 +209,253 @@ def qubit_truthy(fn) -> List[Tuple[ast.AST, str]]:
     return res
 
 
+_INPLACE = {"append", "extend", "insert", "remove", "pop", "clear", "sort", "reverse", "update", "add", "discard", "setdefault", "popitem"}
+
+
+def default_mutated(fn) -> List[Tuple[ast.AST, str]]:
+    """a parameter whose default is a list/dict/set display (one object shared by every call that omits the argument)
+    and which the body changes in place before re-binding it"""
+    if not isinstance(fn, (ast.FunctionDef, ast.AsyncFunctionDef)):
+        return []
+    a = fn.args
+    pos = a.posonlyargs + a.args
+    pairs = list(zip(pos[len(pos) - len(a.defaults) :], a.defaults)) + [(k, d) for k, d in zip(a.kwonlyargs, a.kw_defaults) if d is not None]
+    res = []
+    for arg, dv in pairs:
+        mutable = isinstance(dv, (ast.List, ast.Dict, ast.Set, ast.ListComp, ast.DictComp, ast.SetComp)) or (isinstance(dv, ast.Call) and isinstance(dv.func, ast.Name) and dv.func.id in ("list", "dict", "set", "defaultdict", "OrderedDict", "deque"))
+        if not mutable:
+            continue
+        name = arg.arg
+        rebound_at = None
+        events = []
+        for n in ast.walk(fn):
+            if isinstance(n, (ast.FunctionDef, ast.AsyncFunctionDef, ast.Lambda)) and n is not fn:
+                continue
+            ln = getattr(n, "lineno", None)
+            if isinstance(n, ast.Assign) and any(isinstance(t, ast.Name) and t.id == name for t in n.targets):
+                rebound_at = ln if rebound_at is None else min(rebound_at, ln)
+            if isinstance(n, ast.Call) and isinstance(n.func, ast.Attribute) and isinstance(n.func.value, ast.Name) and n.func.value.id == name and n.func.attr in _INPLACE:
+                events.append((ln, n, f".{n.func.attr}()"))
+            if isinstance(n, ast.AugAssign) and isinstance(n.target, ast.Name) and n.target.id == name:
+                events.append((ln, n, "augmented assignment (in place for lists, sets and dicts)"))
+            if isinstance(n, (ast.Assign, ast.AugAssign, ast.Delete)):
+                tgts = n.targets if isinstance(n, (ast.Assign, ast.Delete)) else [n.target]
+                for t in tgts:
+                    if isinstance(t, ast.Subscript) and isinstance(t.value, ast.Name) and t.value.id == name:
+                        events.append((ln, n, "item assignment / deletion"))
+        for ln, n, how in sorted(events, key=lambda t: t[0] or 0):
+            if rebound_at is not None and ln is not None and ln > rebound_at:
+                continue
+            res.append((n, f"`{norm(n)[:60]}` changes the default object of `{name}={norm(dv)}` by {how}: the default is created once and shared by every call that omits the argument, so what one call adds is still there in the next"))
+            break
+    return res
+
+
+def subs_sequential(fn) -> List[Tuple[ast.AST, str]]:
+    """sympy's `e.subs(mapping)` applies the pairs one after another (unless simultaneous=True): a key occurring in
+    the image of an earlier pair is substituted again.  Fires when the mapping is built in this function and its
+    images are expressions taken from the same table of expressions (not constants, not fresh symbols)."""
+    res = []
+    binds = {}
+    for n in ast.walk(fn):
+        if isinstance(n, ast.Assign) and len(n.targets) == 1 and isinstance(n.targets[0], ast.Name):
+            binds.setdefault(n.targets[0].id, []).append(n.value)
+    for c in ast.walk(fn):
+        if not (isinstance(c, ast.Call) and isinstance(c.func, ast.Attribute) and c.func.attr == "subs" and len(c.args) == 1):
+            continue
+        if any(k.arg == "simultaneous" and isinstance(k.value, ast.Constant) and k.value.value is True for k in c.keywords):
+            continue
+        m = c.args[0]
+        if isinstance(m, ast.Name) and len(binds.get(m.id, [])) == 1:
+            m = binds[m.id][0]
+        vals = None
+        if isinstance(m, ast.Dict) and len(m.keys) > 1 and all(k is not None for k in m.keys):
+            vals = list(m.values)
+        elif isinstance(m, ast.DictComp):
+            vals = [m.value]
+        elif isinstance(m, (ast.ListComp, ast.GeneratorExp)) and isinstance(m.elt, ast.Tuple) and len(m.elt.elts) == 2:
+            vals = [m.elt.elts[1]]
+        if not vals:
+            continue
+
+        def is_plain(v) -> bool:
+            if isinstance(v, ast.Constant):
+                return True
+            if isinstance(v, ast.Name) and v.id in ("true", "false", "BooleanTrue", "BooleanFalse"):
+                return True
+            if isinstance(v, ast.Call) and isinstance(v.func, ast.Name) and v.func.id in ("Symbol", "BooleanTrue", "BooleanFalse", "bool", "Dummy"):
+                return True
+            return False
+
+        bad = [v for v in vals if not is_plain(v)]
+        if bad:
+            res.append((c, f"`{norm(c)[:70]}` substitutes the pairs of a mapping one after another and the images (`{norm(bad[0])[:40]}`) are expressions: a symbol that is both a key and part of an earlier image is substituted a second time (use xreplace or simultaneous=True)"))
+    return res
+
+
+def gates_index_by_count(fn) -> List[Tuple[ast.AST, str]]:
+    """`X.gates` holds every applied gate, barriers and other no-ops included; `X.num_gates` counts the gates that
+    are not no-ops (check() confirms that from the property's definition before arming the rule).  An index or slice
+    bound into the list computed from the count is off by the number of barriers before it."""
+    binds = {}
+    for n in ast.walk(fn):
+        if isinstance(n, ast.Assign):
+            tgts, vals = [], []
+            for t in n.targets:
+                if isinstance(t, ast.Name):
+                    tgts.append(t.id); vals.append(n.value)
+                elif isinstance(t, ast.Tuple) and isinstance(n.value, ast.Tuple) and len(t.elts) == len(n.value.elts):
+                    for a, b in zip(t.elts, n.value.elts):
+                        if isinstance(a, ast.Name):
+                            tgts.append(a.id); vals.append(b)
+            for a, b in zip(tgts, vals):
+                binds.setdefault(a, []).append(b)
+
+    def from_count(e, depth=0) -> bool:
+        for x in ast.walk(e):
+            if isinstance(x, ast.Attribute) and x.attr == "num_gates":
+                return True
+            if isinstance(x, ast.Name) and depth < 3 and len(binds.get(x.id, [])) == 1 and from_count(binds[x.id][0], depth + 1):
+                return True
+        return False
+
+    res = []
+    for n in ast.walk(fn):
+        if isinstance(n, ast.Subscript) and isinstance(n.value, ast.Attribute) and n.value.attr in ("gates",) and from_count(n.slice):
+            res.append((n, f"`{norm(n)[:70]}` positions into the gate list by a count of `num_gates`, which leaves out barriers / no-op gates that the list contains: with a barrier in the circuit the position falls short by one per barrier"))
+    return res
+
+
+_BINDERS = ("Assign", "AugAssign", "AnnAssign", "For")
+
+
+def name_binders(fn) -> List[Tuple[ast.AST, str]]:
+    """a function that walks a syntax tree and returns the set of names bound in it, enumerating the binding statement
+    kinds by isinstance: `x += 1` re-binds x just like `x = x + 1` does, and `for x in ...` binds x - a collector
+    that knows `Assign` and some but not all of the other kinds reports a name as never re-bound when it is."""
+    if not isinstance(fn, (ast.FunctionDef, ast.AsyncFunctionDef)):
+        return []
+    kinds = set()
+    first = None
+    for n in ast.walk(fn):
+        if isinstance(n, ast.Call) and isinstance(n.func, ast.Name) and n.func.id == "isinstance" and len(n.args) == 2:
+            cl = n.args[1].elts if isinstance(n.args[1], ast.Tuple) else [n.args[1]]
+            for c in cl:
+                if isinstance(c, ast.Attribute) and isinstance(c.value, ast.Name) and c.value.id == "ast" and c.attr in _BINDERS:
+                    kinds.add(c.attr)
+                    first = first or n
+    if "Assign" not in kinds or len(kinds) < 2 or kinds >= set(_BINDERS):
+        return []
+    src = norm(fn)
+    reads_targets = ".targets" in src or ".target" in src
+    # the result is a collection of names: a returned name bound to an empty set/list/dict that ids are added to
+    rets = [r.value for r in ast.walk(fn) if isinstance(r, ast.Return) and r.value is not None]
+    coll = None
+    for r in rets:
+        if isinstance(r, ast.Name):
+            for a in ast.walk(fn):
+                if isinstance(a, ast.Assign) and any(isinstance(t, ast.Name) and t.id == r.id for t in a.targets):
+                    v = a.value
+                    if (isinstance(v, ast.Call) and isinstance(v.func, ast.Name) and v.func.id in ("set", "list", "dict") and not v.args) or isinstance(v, (ast.List, ast.Set, ast.Dict)) and not getattr(v, "elts", getattr(v, "keys", [])):
+                        coll = r.id
+    if not reads_targets or coll is None or ".id" not in src:
+        return []
+    missing = [k for k in _BINDERS if k not in kinds]
+    return [(first, f"collects the names bound in a tree from {sorted(kinds)} but not from {missing}: a name re-bound only by {' / '.join('`x += 1`' if k == 'AugAssign' else ('`x: T = v`' if k == 'AnnAssign' else '`for x in ...`') for k in missing)} is reported as never re-bound")]
+
+
+def stale_precedence(fn) -> List[Tuple[ast.AST, str]]:
+    """a scan over a definition list `for s, e in defs:` that records each definition in a table D (`D[s] = ...`) and
+    resolves the symbols of `e` through D *and* a loop-invariant table A: the latest definition of a symbol is the
+    one in D; a lookup that asks A first (`A[x] if x in A else D[x]`) resolves a symbol that was re-defined earlier
+    in the list to its initial binding."""
+    res = []
+    for loop in ast.walk(fn):
+        if not (isinstance(loop, ast.For) and isinstance(loop.target, ast.Tuple) and len(loop.target.elts) == 2 and isinstance(loop.target.elts[0], ast.Name)):
+            continue
+        sname = loop.target.elts[0].id
+        running = set()
+        for n in ast.walk(loop):
+            if isinstance(n, ast.Assign):
+                for t in n.targets:
+                    if isinstance(t, ast.Subscript) and isinstance(t.value, ast.Name) and sname in {x.id for x in ast.walk(t.slice) if isinstance(x, ast.Name)}:
+                        running.add(t.value.id)
+        if not running:
+            continue
+        stored = {t.value.id for n in ast.walk(loop) if isinstance(n, ast.Assign) for t in n.targets if isinstance(t, ast.Subscript) and isinstance(t.value, ast.Name)}
+        for n in ast.walk(loop):
+            if not isinstance(n, ast.IfExp):
+                continue
+            t = n.test
+            neg = False
+            while isinstance(t, ast.UnaryOp) and isinstance(t.op, ast.Not):
+                t, neg = t.operand, not neg
+            if not (isinstance(t, ast.Compare) and len(t.ops) == 1 and isinstance(t.ops[0], (ast.In, ast.NotIn)) and isinstance(t.comparators[0], ast.Name)):
+                continue
+            if isinstance(t.ops[0], ast.NotIn):
+                neg = not neg
+            tbl = t.comparators[0].id
+            hit, miss = (n.orelse, n.body) if neg else (n.body, n.orelse)
+            def reads(e, name):
+                return any(isinstance(x, ast.Subscript) and isinstance(x.value, ast.Name) and x.value.id == name for x in ast.walk(e)) or any(isinstance(x, ast.Call) and isinstance(x.func, ast.Attribute) and x.func.attr == "get" and isinstance(x.func.value, ast.Name) and x.func.value.id == name for x in ast.walk(e))
+            if tbl not in stored and reads(hit, tbl):
+                for d in sorted(running):
+                    if reads(miss, d):
+                        res.append((n, f"`{norm(n)[:80]}` asks the loop-invariant table `{tbl}` before `{d}`, the table of the definitions made so far (`{d}[{sname}] = ...`): a symbol that an earlier definition of the list re-bound (a callee assigning to its own parameter) is resolved to its initial binding, not to its latest definition"))
+                        break
+    return res
+
+
 RULES = (
+    ("STALE-PRECEDENCE", stale_precedence, "the latest definition of a symbol takes precedence over its initial binding"),
+    ("NAME-BINDERS", name_binders, "a collector of re-bound names knows every binding statement kind"),
+    ("COUNT-INDEX", gates_index_by_count, "positions in the gate list are computed from its length, not from the no-op-free gate count"),
+    ("SUBS-SEQUENTIAL", subs_sequential, "a multi-pair substitution of expressions is simultaneous"),
+    ("DEFAULT-MUTATED", default_mutated, "a default argument object is not changed in place"),
     ("LOOP-ONCE", loop_once, "a loop that decides per element reaches its second element"),
     ("ITER-MUTATE", iter_mutate, "a collection is not resized while it is iterated"),
     ("QUBIT-TRUTHY", qubit_truthy, "a qubit index is compared with None, never used as a truth value"),
 )
 
 POSITIVE = {
+    "STALE-PRECEDENCE": """
+def compress(deff, arg_bits):
+    d_exp = {}
+    out = []
+    for s, e in deff:
+        new_e = e.xreplace({x: arg_bits[x] if x in arg_bits else d_exp[x] for x in e.free_symbols})
+        d_exp[s] = new_e
+        out.append((s, new_e))
+    return out
+""",
+    "NAME-BINDERS": """
+def assigned_names(fun_def):
+    names = set()
+    for node in ast.walk(fun_def):
+        if isinstance(node, ast.Assign):
+            for t in node.targets:
+                names.update(n.id for n in ast.walk(t) if isinstance(n, ast.Name))
+        elif isinstance(node, (ast.AnnAssign, ast.For)):
+            names.update(n.id for n in ast.walk(node.target) if isinstance(n, ast.Name))
+    return names
+""",
+    "COUNT-INDEX": """
+def repeat(self, n):
+    n_qc = self.copy()
+    n_gates, n_computed = self.num_gates, len(self.gates_computed)
+    del n_qc.gates[n * n_gates :]
+    return n_qc
+""",
+    "SUBS-SEQUENTIAL": """
+def target_value(exps, controls, target):
+    current = {c: exps[c] for c in controls}
+    return And(*controls).subs(current)
+""",
+    "DEFAULT-MUTATED": """
+def sandwich(self, f_circuit, n, prepare=[]):
+    prepare += [n]
+    return prepare
+""",
     "LOOP-ONCE": """
 def is_input(self, symbol):
     for arg in self.args:
@@ -237,6 +477,51 @@ def compile_thing(self, qc, expr, dest=None):
 }
 
 NEGATIVE = {
+    "STALE-PRECEDENCE": """
+def compress(deff, arg_bits):
+    d_exp = {}
+    out = []
+    for s, e in deff:
+        new_e = e.xreplace({x: d_exp[x] if x in d_exp else arg_bits[x] for x in e.free_symbols})
+        d_exp[s] = new_e
+        out.append((s, new_e))
+    return out
+""",
+    "NAME-BINDERS": """
+def assigned_names(fun_def):
+    names = set()
+    for node in ast.walk(fun_def):
+        if isinstance(node, ast.Assign):
+            for t in node.targets:
+                names.update(n.id for n in ast.walk(t) if isinstance(n, ast.Name))
+        elif isinstance(node, (ast.AnnAssign, ast.For, ast.AugAssign)):
+            names.update(n.id for n in ast.walk(node.target) if isinstance(n, ast.Name))
+    return names
+""",
+    "COUNT-INDEX": """
+def repeat(self, n):
+    n_qc = self.copy()
+    n_gates = len(self.gates)
+    del n_qc.gates[n * n_gates :]
+    print(self.num_gates)
+    return n_qc
+""",
+    "SUBS-SEQUENTIAL": """
+def target_value(exps, controls, target, known):
+    current = {c: exps[c] for c in controls}
+    a = And(*controls).xreplace(current)
+    b = a.subs(current, simultaneous=True)
+    c = b.subs({x: True for x in controls})
+    return c.subs(known)
+""",
+    "DEFAULT-MUTATED": """
+def sandwich(self, f_circuit, n, prepare=[], other=None):
+    prepare = list(prepare)
+    prepare += [n]
+    for p in prepare:
+        other.append(p)
+    return prepare
+""",
     "LOOP-ONCE": """
 def first(self, xs):
     for x in xs:
@@ -277,10 +562,40 @@ def check(ctx, pid: Optional[str] = None, prefixes: Optional[Tuple[str, ...]] = 
         if len(fn(pos)) != 1 or fn(neg):
             raise AnchorError(f"lints.{rule}", "the rule no longer separates its own positive and negative example")
     funcs = [fi for fi in ctx.repo.functions.values() if fi.module is not None and any((fi.short + ".").startswith(p) for p in prefixes)]
+    # functions that are not in the reference inventory (new helpers) and are called, by name, from code in scope:
+    # a mechanism moved into a helper elsewhere in the package stays under the rules of the property it serves
+    try:
+        with open(os.path.join(HERE, "qv", "functions.json")) as fh:
+            known = set(json.load(fh))
+    except OSError:
+        known = None
+    if known is not None:
+        new_fns = [fi for fi in ctx.repo.functions.values() if fi.module is not None and fi.qualname not in known and fi not in funcs]
+        changed = True
+        while changed and new_fns:
+            changed = False
+            called = set()
+            for fi in funcs:
+                for n in ast.walk(fi.node):
+                    if isinstance(n, ast.Call):
+                        f = n.func
+                        called.add(f.attr if isinstance(f, ast.Attribute) else (f.id if isinstance(f, ast.Name) else None))
+            for nf in list(new_fns):
+                if nf.name in called:
+                    funcs.append(nf)
+                    new_fns.remove(nf)
+                    changed = True
     if len(funcs) < 3:
         raise AnchorError(f"lints.scope[{pid}]", f"only {len(funcs)} functions under {prefixes}: the anchored modules were not found")
     for rule, fn, role in RULES:
         hits = 0
+        if rule == "COUNT-INDEX":
+            ng = ctx.repo.maybe_func("qcircuit.qcircuit.QCircuit.num_gates")
+            if ng is None:
+                raise AnchorError("qcircuit.qcircuit.QCircuit.num_gates", "not found")
+            if not any(t in norm(ng.node) for t in ("is_nop", "NopGate")):
+                ctx.ok(rule, None, role, "num_gates no longer filters no-op gates: count and length agree", construct="qcircuit.qcircuit.QCircuit.num_gates")
+                continue
         for fi in funcs:
             # nested functions are FuncInfos of their own: scan only this function's own statements
             for node, what in _scan_own(fi, fn):
